@@ -17,14 +17,19 @@ def harness(ctx, casefile, tier, seed):
     with open(casefile, "w") as dst:
         for i, (pkg, run, ov) in enumerate(parts):
             part = casefile + ".part%d" % i
-            for p in (part, part + ".cov"):
+            for p in (part, part + ".cov", part + ".live"):
                 if os.path.exists(p):
                     os.remove(p)
             rc, out = ctx.go_test(pkg, run, ov, env={"VERIF_OUT": part, "VERIF_TIER": tier, "VERIF_SEED": str(seed)}, timeout=2400)
             rc_all = rc_all or rc
             out_all += out
-            if os.path.exists(part):
-                dst.write(open(part).read())
+            src = part
+            if rc != 0 and os.path.exists(part + ".live"):
+                # the implementation crashed the test binary: keep the cases finished before the crash
+                src = part + ".live"
+            if os.path.exists(src):
+                data = open(src).read()
+                dst.write(data[:data.rfind("\n") + 1])
             for k, v in read_cov(part).items():
                 cov[k] = cov.get(k, 0) + v
     with open(casefile + ".cov", "w") as f:
